@@ -182,11 +182,50 @@ func (d *Data) resyncInMemory(ctx *datastore.VersionedCtx, check bool) {
 	sort.Slice(labels, func(i, j int) bool { return labels[i] < labels[j] })
 
 	if check {
+		d.deleteStaleDenorms(ctx, store, labelE, tagE)
 		d.write_denorms_with_check(ctx, store, labelE, tagE, labels)
 	} else {
 		d.write_denorms(ctx, store, labelE, tagE, labels)
 	}
 
+}
+
+// deleteStaleDenorms removes label and tag denormalizations that no longer have any element.
+// A checked reload only visits labels and tags that currently have elements, so these would
+// otherwise survive it.
+func (d *Data) deleteStaleDenorms(ctx *datastore.VersionedCtx, store storage.OrderedKeyValueDB,
+	labelE LabelElements, tagE map[Tag]ElementsNR) {
+
+	var stale []storage.TKey
+	collect := func(class storage.TKeyClass, current func(storage.TKey) bool) {
+		err := store.ProcessRange(ctx, storage.MinTKey(class), storage.MaxTKey(class), &storage.ChunkOp{}, func(c *storage.Chunk) error {
+			if c != nil && c.V != nil && !current(c.K) {
+				stale = append(stale, c.K)
+			}
+			return nil
+		})
+		if err != nil {
+			dvid.Errorf("Error scanning denormalizations of data %q: %v\n", d.DataName(), err)
+		}
+	}
+	collect(keyLabel, func(tk storage.TKey) bool {
+		label, err := DecodeLabelTKey(tk)
+		_, found := labelE[label]
+		return err != nil || found
+	})
+	collect(keyTag, func(tk storage.TKey) bool {
+		tag, err := DecodeTagTKey(tk)
+		_, found := tagE[tag]
+		return err != nil || found
+	})
+	for _, tk := range stale {
+		if err := store.Delete(ctx, tk); err != nil {
+			dvid.Errorf("Unable to delete stale denormalization in data %q: %v\n", d.DataName(), err)
+		}
+	}
+	if len(stale) > 0 {
+		dvid.Infof("Deleted %d label/tag denormalizations of annotation %q that had no elements left\n", len(stale), d.DataName())
+	}
 }
 
 func (d *Data) write_denorms_with_check(ctx *datastore.VersionedCtx, store storage.OrderedKeyValueDB,
